@@ -93,6 +93,7 @@ void ExecImpl::fail(const char* props, const char* oracle, const std::string& te
   has_viol = true; stop = true;
   viol.props = props;
   if (ctx_moved_mock && viol.props.find("C14") == std::string::npos) viol.props += ",C14";
+  if (ctx_rejected_call && viol.props.find("C01") == std::string::npos) viol.props += ",C01";
   viol.oracle = oracle; viol.text = text; viol.op_index = cur_op_index;
 }
 
@@ -114,7 +115,7 @@ void ExecImpl::run(const Plan& p) {
 void ExecImpl::step(const Op& op, bool nested) {
   if (stop) return;
   ++depth;
-  if (depth == 1) ctx_moved_mock = false;
+  if (depth == 1) { ctx_moved_mock = false; ctx_rejected_call = false; }
   if (!shadow) g_last_op_kind = op.kind;
   if (!nested) ++st.ops[op.kind];
   {
